@@ -346,7 +346,8 @@ class FGearbox(Family):
 
     def draw(self, rng):
         i_dw, o_dw = rng.choice([(10, 2), (10, 4), (20, 32), (32, 20), (8, 8), (3, 5), (5, 3), (7, 8),
-                                 (8, 7), (1, 4), (4, 1), (12, 16), (16, 12), (2, 3), (64, 66), (66, 64)])
+                                 (8, 7), (1, 4), (4, 1), (12, 16), (16, 12), (2, 3), (64, 66), (66, 64),
+                                 (8, 16), (16, 8), (8, 32), (32, 8), (2, 4), (4, 2), (16, 64), (64, 16), (40, 32), (32, 40)])
         return {"i_dw": i_dw, "o_dw": o_dw, "msb_first": rng.random() < 0.5}
 
     def sink_layouts(self, p):
@@ -996,7 +997,7 @@ def run(scn, want_fingerprints=True):
             else:
                 if len(g_list) < len(e_list):
                     # tokens accepted by the element but not delivered within the bound
-                    if not bench.violation:
+                    if True:
                         viol.append({"prop": "C03", "cls": "token_missing", "observable": name,
                                      "msg": "%d of %d expected tokens delivered after %d cycles (cooperative tail from %d)"
                                      % (len(g_list), len(e_list), bench.cycle["sys"], horizon), "cycle": None})
@@ -1004,7 +1005,7 @@ def run(scn, want_fingerprints=True):
                                      "msg": "%d of %d expected tokens delivered after %d cycles (cooperative tail from %d)"
                                      % (len(g_list), len(e_list), bench.cycle["sys"], horizon), "cycle": None})
     # --- C04: sink progress: every token must have been accepted within the bound ---
-    if not all_accepted and bench.violation is None:
+    if not all_accepted:
         blocked_ok = scn["family"] in ("Gate",) and False
         if not blocked_ok:
             for i, pr in enumerate(prods):
